@@ -164,6 +164,9 @@ def case_list(tier):
                     cases.append((kind, "stack", "stack", k, shape, axis))
                 for axis in range(len(shape)):
                     cases.append((kind, "concat", "concat", k, shape, axis))
+                    if kind == "xarray" and k == 2:
+                        # every input carries the same, decreasing, integer labels: the result keeps the inputs' order
+                        cases.append((kind, "concat", "concat", k, shape, axis, "labelled"))
         for op in ("add", "subtract", "multiply", "divide", "pow"):
             for shape in shapes:
                 cases.append((kind, "binary", op, 2, shape))
@@ -278,7 +281,7 @@ def apply_case(case, inputs):
     """Run the real backend for `case` on `inputs` (object arrays of Q or Fraction). Returns (got, want) as
     (shape, flat list) pairs of python values (Q / Fraction)."""
     kind, fam, op = case[0], case[1], case[2]
-    W = [wrap(kind, a, labelled=(fam == "take" and len(case) > 7 and case[7] == "labelled")) for a in inputs]
+    W = [wrap(kind, a, labelled=(case[-1] == "labelled")) for a in inputs]
     f = getattr(backends, op)
     if fam == "multi":
         got = f(*W, **red_kwargs(kind, op))
